@@ -253,6 +253,73 @@ def api_sub_routines(viol, prop="C11") -> int:
     return len(done)
 
 
+CHAINS = [
+    "{ int64_t a; int64_t b; a = b = 5; }", "{ RddV = RxxV = 0x10; }", "{ int64_t p0; int64_t p1; p0 = p1 = 0; RddV = p0 + p1; }",
+    "{ int16_t a; int64_t b; b = a = RsV; RdV = a; RddV = b; }", "{ uint8_t a; uint32_t b; int64_t c; c = b = a = 300; RddV = c + a; }",
+    "{ RdV = ReV = RsV + 1; }", "{ int64_t a = 5; int64_t b = 5; RddV = ((int64_t)5) + a + b; }",
+    "{ RddV = ((RtV > 0) ? ((int64_t)RsV) : ((int64_t)RsV)) + ((int64_t)RsV); }", "{ RddV = (int64_t)((int16_t)((int8_t)RsV)); RxxV = (int64_t)((int16_t)((int8_t)RsV)); }",
+]
+
+
+inl_known = {}
+
+
+def inlining_settings(viol, prop) -> int:
+    """The transformer's public setting `inlined_pure_classes` (which pures are written inline instead of being bound by LET /
+    a C variable; the test-suite uses five values of it): the per-output properties hold under every setting.  Directed programs
+    (repeated constructs, chained assignments of constants, casts of casts, divisions) through the Lean checkers."""
+    from rzilcompiler.Transformer.Pures.Cast import Cast
+    from rzilcompiler.Transformer.Pures.Number import Number
+    # (a folded literal expression gets a name that is no C identifier once numbers are not inlined: listed finding
+    # C11-folded-name-invalid-identifier, not repeated here)
+    progs = [p_ for p_ in REPEATS + CHAINS + DIVISIONS if isinstance(p_, str) and "5 + 5" not in p_]
+    parsed = rc.parse_programs(progs)
+    rc.close_pool()
+    n = 0
+    for setting in [(Cast,), (), (Number,), (Cast, Number)]:
+        c = rc.compiler(textcheck.FORMATS[0], fresh=True)
+        c.transformer.inlined_pure_classes = setting
+        ok = []
+        for src, pr in zip(progs, parsed):
+            if pr[0] != "ok":
+                continue
+            r = rc.transform_tree(c, pr[1])
+            if r[0] == "ok":
+                ok.append((src, r[1]))
+        sess = textcheck.TextSession()
+        for name, ret, params, text in rc.sub_routine_defs(c):
+            sess.def_sub(name, ret, params, text, tag=None)
+        for i_, (_, t_) in enumerate(ok):
+            sess.text(t_, tag=i_)
+        for tag, rep in sess.run():
+            if tag is None:
+                continue
+            src, text = ok[tag]
+            n += 1
+            probs = problems_for(prop, rep)
+            # listed finding (settings that do not inline numbers): a constant that is the DIRECT operand of an effect is read as
+            # VARLP(..) although only pure operations wrap their operands in LET - explained only if every read of that
+            # constant in this text has that shape
+            if probs and Number not in setting:
+                kid = {"C10": "C10-uninlined-number-unbound", "C12": "C12-uninlined-number-unused"}.get(prop)
+                left = []
+                for p_ in probs:
+                    m_ = re.search(r'VARLP\("(\w+)"\): LET-bound name not in scope|pure (\w+) is initialised but never used', p_)
+                    nm = m_ and (m_.group(1) or m_.group(2))
+                    occ = len(re.findall(r'VARLP\("%s"\)' % re.escape(nm), text)) if nm else 0
+                    direct = len(re.findall(r'(?:SETL\("\w+", |WRITE_REG\(bundle, \w+, |STOREW\(\w+, )VARLP\("%s"\)\)' % re.escape(nm), text)) if nm else 0
+                    if kid and nm and nm.startswith("const_") and occ > 0 and occ == direct:
+                        inl_known[kid] = inl_known.get(kid, 0) + 1
+                    else:
+                        left.append(p_)
+                probs = left
+            if probs:
+                viol.append({"what": probs[:3], "scope": "inlining-setting", "ident": src, "program": src, "emitted": text,
+                             "setting": [x.__name__ for x in setting],
+                             "reproduce": f"c = Compiler(ArchEnum.HEXAGON); c.transformer.inlined_pure_classes = ({', '.join(x.__name__ for x in setting)},); c.compile_c_stmt({src!r})"})
+    return n
+
+
 def read_protocol(viol) -> int:
     """The read-counter protocol itself, on the REAL objects: after a behaviour is transformed (before the reset) every
     shared node the transformer holds - source registers, non-inlined PureExec results, pure parameters of a
@@ -452,8 +519,13 @@ def run_prop(prop: str, tier: str, replay=None) -> int:
     api_subs = 0
     if prop == "C11":
         rec_checked += records_of_programs([it["src"] for it in items if it["status"] == "ok"][:60], viol)
+    inl = 0
     if prop in ("C10", "C11", "C12"):
         api_subs = api_sub_routines(viol, prop)
+        inl = inlining_settings(viol, prop)
+    for k in known_for(prop):
+        if k.get("scope") == "inlining-setting" and inl_known.get(k["id"]):
+            res.known(f"{k['id']}: {k['what']} [{inl_known[k['id']]} directed programs of this run, e.g. {k['witness_text']}] ({k.get('site', '')})")
     for k in known_for(prop):
         if k.get("scope") == "corpus" and known_hit.get(k["id"]):
             res.known(f"{k['id']}: {k['what']} [corpus instruction {k['insn']}] ({k.get('site', '')})")
@@ -475,7 +547,7 @@ def run_prop(prop: str, tier: str, replay=None) -> int:
         "exhaustive": tier == "thorough",
         "corpus": cstats,
         "generated": gstats,
-        "companion_records_checked": rec_checked, "api_sub_routines_checked": api_subs, "read_protocol_objects": proto_checked,
+        "companion_records_checked": rec_checked, "api_sub_routines_checked": api_subs, "programs_under_other_inlining_settings": inl, "read_protocol_objects": proto_checked,
         "known_finding_hits": known_hit,
         "violations_total": len(viol),
         "samples": samples,
